@@ -131,18 +131,23 @@ func (b BlockSpec) render() string {
 }
 
 func checkC20(t *testing.T, c C20Case) *stats.Verdict {
+	var sb strings.Builder
+	for _, b := range c.Blocks {
+		sb.WriteString(b.render())
+	}
+	return checkC20Raw(t, c, []byte(sb.String()))
+}
+
+// checkC20Raw evaluates the C20 oracle on an explicit stream (used by the native fuzz target too).
+func checkC20Raw(t *testing.T, c C20Case, stream []byte) *stats.Verdict {
 	v := &stats.Verdict{Size: len(c.Blocks)}
 	L := c.limit()
-	var sb strings.Builder
 	for i, b := range c.Blocks {
-		s := b.render()
 		if b.Kind == "noterm" && i != len(c.Blocks)-1 {
 			// an unterminated block in the middle simply merges with the next one
 			v.Class("merged-unterminated")
 		}
-		sb.WriteString(s)
 	}
-	stream := []byte(sb.String())
 	ref := oracle.Interpret(stream, "", map[string]oracle.Mode{"read": oracle.Read, "conn": oracle.Connection}[c.Via])
 	v.Class("via:" + c.Via)
 	v.Class(fmt.Sprintf("limit:%s", map[bool]string{true: "default", false: "set"}[c.L == 0]))
